@@ -291,7 +291,7 @@ class CallMixin:
         # mutation of something reachable from self
         if name in MUTATORS and self.is_rooted_at_self(base):
             fr.emit(Effect('mutcall', base, (name,) + tuple(args), node, fr.func))
-        return Sym('call', Sym('attr', base, name), *args)
+        return Sym('call', Sym('attr', base, name), *args, *[('kw', k, v) for k, v in kwargs.items()])
 
     # -- calling repository functions ------------------------------------------------------
     def bind_params(self, func, recv, args, kwargs, fr, star=()):
